@@ -4,6 +4,7 @@ VERUS_UNITS = {
     "u4_policy": dict(template="units/u4_policy.vrs", rlimit=80),
     "u1_estimator": dict(template="units/u1_estimator.vrs", rlimit=80),
     "u5_ttl": dict(template="units/u5_ttl.vrs", rlimit=80),
+    "u6_store": dict(template="units/u6_store.vrs", rlimit=120),
 }
 
 # Kani harness groups: appended as a child module to `file` in a scratch copy of /repo
@@ -27,8 +28,12 @@ PROPS = {
     "C13": dict(units=["u1_estimator"], kani=["bbloom"], replay=["estimator"]),
     "C14": dict(units=["u1_estimator"], kani=["bbloom"], replay=["estimator"]),
     "C20": dict(units=["u1_estimator"], kani=["bbloom"], replay=["estimator"]),
-    "C03": dict(units=["u5_ttl"], kani=["ttl"], replay=["ttl"]),
-    "C05": dict(units=["u5_ttl"], kani=["ttl"], replay=["ttl"]),
+    "C02": dict(units=["u6_store"], kani=[], replay=["ttl"]),
+    "C03": dict(units=["u6_store"], kani=["ttl"], replay=["ttl"]),
+    "C04": dict(units=["u6_store", "u4_policy"], kani=["ttl"], replay=["ttl", "policy"]),
+    "C05": dict(units=["u6_store", "u4_policy"], kani=["ttl"], replay=["ttl"]),
+    "C09": dict(units=["u6_store"], kani=[], replay=["ttl"]),
+    "C18": dict(units=["u6_store"], kani=[], replay=["ttl"]),
 }
 
 ASSUMPTIONS = {
